@@ -179,6 +179,10 @@ def handle : List String → String
   -- own fetch (pinned_key_never_stale: never by an entry of another id), whatever arrives meanwhile
   | ["cacherace", _e, _k] => "ok p=1"
   | ["cacherace", _e, _k, "rev"] => "ok p=1"
+  -- the pinned path end to end (client handle -> /sign request with KeyID -> handler context -> cache -> token): the
+  -- handle holds id 1, a later unpinned lookup sees the rotated key (id 2), the signature is made by id 1
+  -- (pinned_key_never_stale / pinned_lookup_returns_pinned), whatever the token's configured timeout
+  | ["wpin", _t, _e, other] => s!"ok held=01 other={if other = "1" then "02" else "-"} sig=5101"
   | ["delays", k] =>
     match k.toNat? with
     | some k => "ok " ++ showNats ((List.range k).map delaySeq)
